@@ -94,7 +94,7 @@ SLOT_RULE = ("comment-slot enumeration: 46 constructs (every statement kind, exp
 
 PIPE_RULE = ("ring 3 (closed set): the repository's 367 test inputs (+ committed catalogue) x a fixed grid of 79 configurations "
              "(column widths 1..usize::MAX, both indent types, widths 1-16, both line endings, every value of every enum option), "
-             "each case checked by independent oracles (re-parse, normal form, comment census, idempotence, whitespace scan, panic/time). ")
+             "plus a width sweep (every column width 1..130) of every one-line catalogue program; each case checked by independent oracles (re-parse, normal form, comment census, idempotence, whitespace scan, option rules, panic/time). ")
 
 PROPS["C01"] = {
     "lean_modules": ["StyluaModel.Props.C01"],
@@ -213,5 +213,19 @@ PROPS["C11"] = {
     "technique": "Lean 4 decision tables + exhaustive correspondence + option-rule oracle on closed sets",
     "rule": "ring 2: 5 modes x 16 written call forms (single string / table / other / several / no arguments, short, over-width, multi-line, long-bracket) x 5 next suffixes x 3 prefixes x 3 statement positions x 2 widths; 4 spacing modes x 7 sites; 781 string bodies over {',\",\\,a,n} up to length 4 x 2 input quotes x 4 styles. distinct_nontrivial = call-form requests about a single string/table argument or sugar form + string bodies with quotes/backslashes. " + PIPE_RULE + SLOT_RULE,
     "trusted_base": [],
+    "assumptions": [],
+}
+
+PROPS["C06"] = {
+    "lean_modules": ["StyluaModel.Props.C06"],
+    "theorem_prefix": "C06_",
+    "required_theorems": ["C06_strlit", "C06_number", "C06_semicolon", "C06_sort", "C06_comment_text", "C06_paren_not_idempotent"],
+    "hx": [["pipe"], ["slots"], ["c05"]],
+    "level": "proof",
+    "level_text": "Proof, partial — the property the technique serves least: idempotence theorems for every decision mechanism that has a model (string and number rewriting, semicolon decisions, sorted require groups, comment text), and a proven counterexample for the parenthesis rule (`(- -f())`, found by evaluating the model). Whether the second pass takes the same layout path as the first is a fact about Shape arithmetic and ~40 heuristics that are not modelled: it is checked on the closed sets only (corpus x 79 configurations, width sweep 1..130 of catalogue one-liners, comment-slot enumeration), whose unchanged-tree failures are listed exactly.",
+    "level_note": "Trusted: Lean kernel; models tied by their own correspondences (C04, C05, C08, C12, C03 protocols); byte comparison format(format(p)) = format(p) on the real library.",
+    "technique": "Lean 4 idempotence proofs per mechanism + byte-for-byte idempotence oracle on closed sets incl. width sweeps",
+    "rule": PIPE_RULE + SLOT_RULE + "ring 2: `expr` correspondence (C05).",
+    "trusted_base": ["layout-path stability is not modelled"],
     "assumptions": [],
 }
